@@ -156,9 +156,9 @@ func tname(ty int) string { return schema.Types[ty].QName() }
 // C01: Encode then Decode returns the same message
 func init() {
 	suites["C01"] = func(o *Out, g *Gen, thorough bool) map[string]any {
-		per := 12
+		per := 30
 		if thorough {
-			per = 300
+			per = 600
 		}
 		keysHit := map[string]bool{}
 		vals := canonValues(g, per)
